@@ -40,7 +40,6 @@ void F___cxa_end_catch(void) { if (ncaught > 0) ncaught--; }
 void F___cxa_rethrow(void) { __CPROVER_assert(ncaught > 0 && ncaught <= 4, "MODEL: rethrow outside catch"); __exc_obj = caught[(ncaught - 1) & 3]; __exc_pending = 1; }
 char* F___cxa_get_exception_ptr(char* obj) { return obj; }
 void F__ZSt9terminatev(void) { __CPROVER_assert(0, "VERIF: std::terminate called"); __CPROVER_assume(0); }
-void F___clang_call_terminate(char* e) { __CPROVER_assert(0, "VERIF: std::terminate called"); __CPROVER_assume(0); }
 void F___cxa_pure_virtual(void) { __CPROVER_assert(0, "VERIF: pure virtual called"); __CPROVER_assume(0); }
 void F___cxa_bad_cast(void);
 int __VERIF_isa(char* obj, char* want) {
